@@ -237,6 +237,29 @@ def setop_programs(tier):
                    "opts": {"wrap_set_operation_queries": False}}
 
 
+def reuse_programs(tier):
+    """one table under two aliases with a table star next to columns of the other alias; one column assigned twice; a column
+    selected twice; the same operand twice in a set operation"""
+    X, Y = ["t", "t", "x"], ["t", "t", "y"]
+    on = ["on", ["cmp", "=", f("x", "id"), f("y", "a")]]
+    oid = [["orderby", [f("x", "id")], "asc"], ["orderby", [f("y", "id")], "asc"]]
+    yield {"calls": [["from", X], ["join", "inner", Y, on], ["select", [f("x", "s"), ["star", "y"]]]] + oid}
+    yield {"calls": [["from", X], ["join", "inner", Y, on], ["select", [f("y", "s")]], ["select", [["star", "x"]]]] + oid}
+    yield {"calls": [["from", X], ["join", "left", Y, on], ["select", [f("x", "a"), f("y", "a"), f("x", "a")]]] + oid}
+    T_ = ["t", "t"]
+    yield {"calls": [["update", T_], ["set", f("t", "a"), raw(10)], ["set", f("t", "a"), ["arith", "+", f("t", "b"), raw(1)]]]}
+    yield {"calls": [["update", T_], ["set", "a", raw(10)], ["set", f("t", "b"), raw(3)], ["set", "a", raw(11)], ["where", ["cmp", ">", f("t", "id"), raw(1)]]]}
+    yield {"calls": [["from", T_], ["select", [f("t", "a"), f("t", "a"), ["lit", 1], ["lit", 1]]], ["orderby", [f("t", "id")], "asc"]]}
+    yield {"calls": [["from", T_], ["select", [f("t", "a")]], ["select", [f("t", "b")]], ["select", [f("t", "a")]], ["orderby", [f("t", "id")], "asc"]]}
+    yield {"calls": [["into", T_], ["columns", ["a", "b"]], ["from", ["t", "u"]], ["select", [f("u", "x"), f("u", "x")]]]}
+    yield {"calls": [["from", T_], ["select", [f("t", "id")]], ["where", ["in", f("t", "a"), [raw(1), raw(1), raw(11), raw(1)]]], ["orderby", [f("t", "id")], "asc"]]}
+    yield {"calls": [["from", T_], ["select", [f("t", "a")]], ["groupby", [f("t", "a")]], ["groupby", [f("t", "b")]], ["groupby", [f("t", "a")]], ["orderby", [f("t", "a")], "asc"]]}
+    a = {"calls": [["from", T_], ["select", [f("t", "a")]], ["where", ["cmp", ">", f("t", "a"), raw(0)]]]}
+    b = {"calls": [["from", ["t", "u"]], ["select", [f("u", "x")]]]}
+    for o1, o2 in (("except_of", "union"), ("union", "intersect"), ("union_all", "union_all"), ("intersect", "union")):
+        yield {"calls": a["calls"] + [[o1, b], [o2, b]], "opts": {"wrap_set_operation_queries": False}}
+
+
 def setop_embedded_programs(tier):
     """a set operation (operands unwrapped, the only form SQLite reads) as a row source / IN operand of another statement"""
     a = {"calls": [["from", ["t", "t"]], ["select", [A(f("t", "a"), "k")]], ["where", ["cmp", ">", f("t", "a"), raw(0)]]]}
@@ -295,6 +318,7 @@ def chunks(tier, seed):
     out += [{"gen": "struct", "part": i, "of": 4, "tier": tier} for i in range(4)]
     out += [{"gen": "kwalias", "part": i, "of": 4, "tier": tier} for i in range(4)]
     out.append({"gen": "setop_embedded", "part": 0, "of": 1, "tier": tier})
+    out.append({"gen": "reuse", "part": 0, "of": 1, "tier": tier})
     out.append({"gen": "equiv"})
     out += [{"gen": "expr", "part": i, "of": 16, "tier": tier} for i in range(16)]
     return out
@@ -336,6 +360,7 @@ def kw_alias_programs(tier):
 
 GEN["kwalias"] = kw_alias_programs
 GEN["setop_embedded"] = setop_embedded_programs
+GEN["reuse"] = reuse_programs
 
 
 def expand(chunk):
